@@ -113,6 +113,23 @@ func c35Ranks(run *mon.Run, rnd *mon.Rand, thorough bool) {
 					orders = append(orders, randPerm(rnd, n))
 				}
 			}
+			// insertion histories in which members are added again with a fresh node object (a node re-read from a magic block or
+			// re-registered with new settings replaces the object in the pool): the ranking must not depend on that either
+			if n >= 2 {
+				for k := 0; k < 2+ordersPer/2; k++ {
+					o := randPerm(rnd, n)
+					for d := 1 + rnd.Intn(3); d > 0; d-- {
+						again := o[rnd.Intn(n)]
+						at := rnd.Intn(len(o) + 1)
+						o = append(o[:at], append([]int{again}, o[at:]...)...)
+					}
+					if rnd.Chance(0.5) {
+						o = append(o, randPerm(rnd, n)...) // everybody once more
+					}
+					orders = append(orders, o)
+					run.Count("insertion_histories_with_readded_members", 1)
+				}
+			}
 			pools := make([]*node.Pool, len(orders))
 			for k, o := range orders {
 				pools[k] = buildPool(sub, o, node.NodeTypeMiner)
